@@ -80,9 +80,9 @@ def run(ctx):
     p = ctx.program
     ctx.trust("os.replace is atomic within a file system", "files adopted on start-up must end with the cache postfix (C18 R18.3)")
     cache_cls = p.get_class(FC)
-    gi = p.get_method(FC, "__getitem__")
     from .fc import inline_value_calls
     from .c18 import CACHE_VOCABULARY
+    gi = inline_value_calls(p, p.get_method(FC, "__getitem__"), keep=CACHE_VOCABULARY)
     gm = inline_value_calls(p, p.get_method(FC, "get_cache_misses"), keep=CACHE_VOCABULARY)      # private helpers are seen through
     dl = p.get_function(FCM + "._download_from_resources")
     worker = p.nested_function(dl, "_worker")
@@ -108,6 +108,25 @@ def run(ctx):
                     in_body = a in [x for b in i.body for x in ast.walk(b)]
                     else_pops = any(isinstance(c, ast.Call) and isinstance(c.func, ast.Attribute) and c.func.attr in (
                         "pop", "remove") and (dotted(c.func.value) or "") == (returned_name(gi.node) or "?") for b in i.orelse for c in ast.walk(b))
+                    if in_body and not else_pops:
+                        # ... or the failed paths are collected in a list whose elements are later removed from the result
+                        la_gi = local_assignments(gi.node)
+                        coll = [c.func.value.id for b in i.orelse for c in ast.walk(b) if isinstance(c, ast.Call)
+                                and isinstance(c.func, ast.Attribute) and c.func.attr == "append" and isinstance(c.func.value, ast.Name)]
+
+                        def aliases(nm, target, depth=0):
+                            if nm == target:
+                                return True
+                            return depth < 4 and any(d[0] == "assign" and isinstance(d[1], ast.Name) and aliases(d[1].id, target, depth + 1)
+                                                     for d in la_gi.get(nm, []))
+                        for lp2 in [n for n in own_walk(gi.node) if isinstance(n, ast.For) and isinstance(n.iter, ast.Name)
+                                    and isinstance(n.target, ast.Name)]:
+                            if any(aliases(lp2.iter.id, c_) for c_ in coll) and any(
+                                    isinstance(c, ast.Call) and isinstance(c.func, ast.Attribute) and c.func.attr == "remove"
+                                    and (dotted(c.func.value) or "") == (returned_name(gi.node) or "?") and len(c.args) == 1
+                                    and isinstance(c.args[0], ast.Name) and c.args[0].id == lp2.target.id
+                                    for b in lp2.body for c in ast.walk(b)):
+                                else_pops = True
                     if in_body and else_pops:
                         ok = True
         ok_all = ok_all and ok
